@@ -3,6 +3,7 @@ package checks
 import (
 	"bytes"
 	"fmt"
+	"github.com/facebookincubator/dns/dnsrocks/dnsdata/quote"
 	"math/rand"
 	"sync"
 
@@ -16,7 +17,18 @@ import (
 // Entry points for the native fuzz targets in /verif/fuzz (thorough tier of C13, C17, C18).
 
 // FuzzQuoteOne applies C17's oracle to one byte string.
-func FuzzQuoteOne(b []byte) string { return c17One(b) }
+func FuzzQuoteOne(b []byte) string {
+	if fuzzHeldQ != nil && !bytes.Equal(fuzzHeldQ, fuzzHeldCopy) {
+		return fmt.Sprintf("a held quoted form %q changed to %q while other strings were quoted", fuzzHeldCopy, fuzzHeldQ)
+	}
+	msg := c17One(b)
+	fuzzHeldQ = quote.Bquote(append([]byte{}, b...))
+	fuzzHeldCopy = append([]byte{}, fuzzHeldQ...)
+	return msg
+}
+
+// the quoted form of the previous fuzz input, held across calls (one fuzz worker process runs its inputs sequentially)
+var fuzzHeldQ, fuzzHeldCopy []byte
 
 // FuzzSvcbOne applies the input-independent part of C18's oracle to arbitrary parameter text:
 // an accepted list must emit conformant wire data that survives print->parse.
@@ -69,7 +81,7 @@ func FuzzInit() { fuzzServers() }
 func fuzzServers() []*harness.Server {
 	fuzzSrvOnce.Do(func() {
 		cfgs := []c02Config{c02Configs[0], c02Configs[4], c02Configs[5]} // cdb, rdb1 and rdb2 through the batch compiler (cheap)
-		for li, layout := range []int{1, 5, 8, 9} { // nested zones, root zone, root delegation, empty file
+		for li, layout := range []int{1, 5, 8, 9} {                      // nested zones, root zone, root delegation, empty file
 			w := gen.GenWorld(rand.New(rand.NewSource(int64(4200+li))), gen.WorldOpts{Layout: layout})
 			opened, _, err := c02Open(w.Text(), cfgs)
 			if err != nil {
